@@ -25,4 +25,4 @@ FLOORS = {'IT-TRANSFER': 10, 'SIZE-HINT': 3, 'SPEC-POST': 8, 'REL-POST': 20}
 
 
 def run(ctx):
-    return c03.run(ctx, pid=PID, roots=ROOTS, kinds=KINDS, floors=FLOORS, what='iterator', min_roots=8)
+    return c03.run(ctx, pid=PID, roots=ROOTS, kinds=KINDS, floors=FLOORS, what='iterator', min_roots=7)   # 7 in no-alloc configurations (no into_owned)
